@@ -19,6 +19,11 @@ def run(tier):
     for cfg in (["OptPath"] if tier == "quick" else ["OptPath", "OptPath_log", "OptPath4"]):
         ro.run_lens("OptPath", cfg=cfg)
     out.add_replay(ro, "optpath")
+    # float range: the shift law TLC proved on each homogeneous program (c = log 2), replayed with
+    # every leaf shifted by -400 / +400
+    rs = replay.Replay("harness.modes:c08shift")
+    rs.run_lens("hom_logaddexp", cfg="hom_logaddexp" if tier == "quick" else "hom_logaddexp_deep", timeout=2400)
+    out.add_replay(rs, "homogeneity")
     events = rp.events
     jr, n_ok, n_bad, n_undef = judge_events(
         out, events, "C08", lambda e: "%s|%s" % (e["what"], replay.term_sig(e["lhs"], 2)))
@@ -36,6 +41,10 @@ def run(tier):
     cov["traces_validated_against_impl"] += ro.records
     cov["optimizer_path_model"] = {"tlc_states": ro.states, "problem_path_pairs_replayed": ro.records,
                                    "verdicts": dict(ro.counts)}
+    cov["states"] += rs.states
+    cov["transitions"] += rs.transitions
+    cov["traces_validated_against_impl"] += rs.records
+    cov["shift_law_replay"] = {"tlc_states": rs.states, "programs": rs.records, "verdicts": dict(rs.counts)}
     cov["exhaustive"] = False
     out.coverage = cov
     return out.finish()
